@@ -137,6 +137,26 @@ def preemptions(choices, points):
     return n
 
 
+NEED_TRACKING = ("item-never-qualified", "item-missing", "answer-duplicate")
+
+
+def evaluate(cfg, base, participants, prefix, oracle, track):
+    """Execute one schedule and judge it - the one procedure used by the explorer AND by
+    replays, so that a replay performs exactly the same calls as the run that found it.
+    First pass without per-boundary bookkeeping; if the oracle reports an item anomaly, the
+    very same schedule is re-run with bookkeeping on (needed to classify known findings)."""
+    e, choices, points = run_schedule(cfg, base, participants, prefix, track=None)
+    res = oracle(e)
+    if track and any(r[0] in NEED_TRACKING for r in res):
+        e.close()
+        e, choices2, points = run_schedule(cfg, base, participants, choices, track=track)
+        if choices2 != choices:
+            e.close()
+            raise RuntimeError("schedule diverged when replayed with tracking")
+        res = oracle(e)
+    return e, choices, points, res
+
+
 def root_children(cfg, base, participants, bound):
     """Prefixes of the children of the default schedule: the schedule tree splits into the
     root execution plus the disjoint subtrees below these prefixes (used to shard one
@@ -171,21 +191,12 @@ def explore(cfg, base, participants, bound, oracle, track=None, max_schedules=No
     stack = [list(p) for p in start] if start is not None else [[]]
     while stack:
         prefix = stack.pop()
-        e, choices, points = run_schedule(cfg, base, participants, prefix, track=None)
+        e, choices, points, res = evaluate(cfg, base, participants, prefix, oracle, track)
         try:
             stats["schedules"] += 1
             stats["steps"] += len(choices)
             np_ = preemptions(choices, points)
             stats["max_preemptions_seen"] = max(stats["max_preemptions_seen"], np_)
-            res = oracle(e)
-            if track and any(r[0] in ("item-never-qualified", "item-missing", "answer-duplicate") for r in res):
-                # classification of ghosts needs per-boundary bookkeeping: re-run this very
-                # schedule with tracking on (same choices; divergence is a hard error)
-                e.close()
-                e, choices2, points = run_schedule(cfg, base, participants, choices, track=track)
-                if choices2 != choices:
-                    raise RuntimeError("schedule diverged when replayed with tracking")
-                res = oracle(e)
             for tag, msg, kn in res:
                 if kn:
                     known.setdefault(kn, (msg, list(choices), list(e.trace)))
